@@ -462,6 +462,12 @@ class Theory:
 
         def run_body(sb: St):
             fr_loop_no = fr.loop_no
+            v0 = None
+            if spec.variant is not None:
+                # termination: an integer measure that is bounded below whenever the body is entered and strictly
+                # decreases on every path that comes back to the loop head
+                v0 = spec.variant(LoopCtx(st0, sb, i, it, fr))
+                ip.require(sb, f"loopvariant:{lname}:bounded-below-when-the-body-is-entered", v0 >= 0, spec.props or None)
             res = ip.block(sb, fr, node.body)
             fr.loop_no = fr_loop_no
             for s2, ex in res:
@@ -470,7 +476,7 @@ class Theory:
                     for label, f in spec.inv(LoopCtx(st0, s2, i + 1, it, fr)):
                         ip.require(s2, f"loopinv-step:{lname}:{label}", f, spec.props or None)
                     if spec.variant is not None:
-                        pass
+                        ip.require(s2, f"loopvariant:{lname}:strictly-decreases(termination)", spec.variant(LoopCtx(st0, s2, i + 1, it, fr)) < v0, spec.props or None)
                 elif ex.kind == Exit.BREAK:
                     exits_after.append(s2)
                 else:
